@@ -89,38 +89,37 @@ theorem depth_checks_agree (limit d : Nat) (h : d ≤ limit) : interpCall limit 
   · have : ¬ (d + 1 > limit) := by omega
     simp [this, hd]
 
-/-- **Known finding `vm-depth-limit-off-by-one`, exhibited by the model** (shape shown at limit 3; the Go
-constant is 2000): the VM's call stack already holds the entry point's frame, so recursion exactly
-`limit` deep succeeds in the interpreter and fails in the VM. -/
-theorem vm_depth_off_by_one_witness :
+/-- **The engines agree on call depth** (after /repo 4e6bf8c + bc0b586): for every configured
+`runtime.Config.StackDepthLimit` (0 = unset) and every `n`, recursion `n` deep below the entry point
+succeeds in the interpreter (limiter from 0, limit `interpEffectiveLimit`) iff it succeeds in the VM (call
+stack holding the entry frame, limit `vmEffectiveLimit` = the same + 1), namely iff `n` ≤ the effective
+limit; otherwise both raise the call-depth error. -/
+theorem depth_engines_agree (configured n : Nat) :
+    (interpNested configured n).isSome = (vmNested configured n).isSome ∧
+    ((interpNested configured n).isSome = true ↔ n ≤ interpEffectiveLimit configured) := by
+  unfold interpNested vmNested vmEffectiveLimit
+  have hi := depthRun_calls (interpEffectiveLimit configured) n 0 (Nat.zero_le _)
+  have hv := depthRun_calls_vm (interpEffectiveLimit configured + 1) n 1 (by omega)
+  rw [hi, hv]
+  by_cases h : n ≤ interpEffectiveLimit configured
+  · have h2 : 1 + n ≤ interpEffectiveLimit configured + 1 := by omega
+    simp [h2, h]
+  · have h2 : ¬ (1 + n ≤ interpEffectiveLimit configured + 1) := by omega
+    simp [h2, h]
+
+/-- **Why /repo bc0b586 is needed** (the former finding `vm-depth-limit-off-by-one`, shape shown at limit 3;
+the Go constant is 2000): with the *same* limit in both engines, the VM's call stack already holds the
+entry point's frame, so recursion exactly `limit` deep succeeds in the interpreter and fails in the VM. -/
+theorem vm_same_limit_off_by_one_witness :
     depthRun (interpCall 3) (List.replicate 3 Ev.call) 0 = some 3 ∧
     depthRun (vmCall 3) (List.replicate 3 Ev.call) 1 = none ∧
-    depthRun (vmCall 3) (List.replicate 2 Ev.call) 1 = some 3 := by decide
+    depthRun (vmCall (3 + 1)) (List.replicate 3 Ev.call) 1 = some 4 := by decide
 
-/-- **Known finding `vm-ignores-configured-stack-depth-limit`, exhibited by the model**: with
-`runtime.Config.StackDepthLimit = 50`, recursion 60 deep fails in the interpreter and succeeds in the VM. -/
-theorem vm_ignores_configured_limit_witness :
-    interpNested 50 60 = none ∧ (vmNested 50 60).isSome = true := by decide
-
-/-- **Partial agreement of the engines** (what remains true next to the two findings): with the default
-limit, recursion less than `limit` deep succeeds in both engines and recursion more than `limit` deep
-fails in both with the call-depth error.  (At exactly `limit`, and under a configured limit, they differ.) -/
-theorem depth_engines_agree_partial (limit n : Nat) (hl : 0 < limit) :
-    (n < limit → (depthRun (interpCall limit) (List.replicate n Ev.call) 0).isSome = true ∧
-                 (depthRun (vmCall limit) (List.replicate n Ev.call) 1).isSome = true) ∧
-    (limit < n → depthRun (interpCall limit) (List.replicate n Ev.call) 0 = none ∧
-                 depthRun (vmCall limit) (List.replicate n Ev.call) 1 = none) := by
-  have hi := depthRun_calls limit n 0 (Nat.zero_le _)
-  have hv := depthRun_calls_vm limit n 1 (by omega)
-  constructor
-  · intro h
-    have h1 : 0 + n ≤ limit := by omega
-    have h2 : 1 + n ≤ limit := by omega
-    rw [hi, hv]; simp [h2]; omega
-  · intro h
-    have h1 : ¬ (0 + n ≤ limit) := by omega
-    have h2 : ¬ (1 + n ≤ limit) := by omega
-    rw [hi, hv]; simp [h2]; omega
+/-- **Why /repo 4e6bf8c is needed** (the former finding `vm-ignores-configured-stack-depth-limit`): a VM
+environment that applies the default whatever is configured lets recursion 60 deep succeed under
+`runtime.Config.StackDepthLimit = 50`, where the interpreter (and the fixed VM) fail. -/
+theorem vm_default_limit_ignores_configuration_witness :
+    interpNested 50 60 = none ∧ (vmNestedOld 50 60).isSome = true ∧ vmNested 50 60 = none := by decide
 
 /-! Non-vacuity: a concrete disciplined machine — `while true { }` as the VM runs it: the loop charge
 (`true`: at `InstructionLoop`) alternates with an uncharged jump back (`false`). -/
